@@ -24,7 +24,7 @@ BASE = {
     "flt": {"FLUSH": 3, "SINK_FAIL": 3, "GC": 1, "IDLE": 1},
     "class": {"mut": 60, "obs": 30, "flt": 10},
     "p_rel": 0.3, "p_reps": 0.35, "p_regdur": 0.2, "p_regrep": 0.25, "lib": True,
-    "kinds": None, "force_kinds": [], "max_steps": 28, "min_steps": 6,
+    "kinds": None, "force_kinds": [], "max_steps": 28, "min_steps": 6, "p_long": 0.008,
 }
 
 
@@ -101,6 +101,10 @@ class Gen:
         self.boot_id = boot_id or rng.choice(list(BOOT_CONFIGS))
         self.n_sessions = rng.choice([1, 1, 2, 2, 3])
         self.budget = rng.randint(self.P["min_steps"], self.P["max_steps"])
+        # size is a dimension too: a few runs build long / wide circuits (few observers, lifted size caps)
+        self.long = rng.random() < self.P.get("p_long", 0.01)
+        if self.long:
+            self.budget = rng.randint(110, 300)
         self.n_qubits = rng.randint(1, 4)
         self.depth_cap = rng.randint(1, 3)
         pool = DRAWABLE if self.P.get("drawable_only") else ALL_KINDS
@@ -128,6 +132,10 @@ class Gen:
         for k in list(self.flt_w):
             if rng.random() < 0.25:
                 self.flt_w[k] = 0
+        if self.long:
+            self.class_w = {"mut": 96, "obs": 3, "flt": 1 if fault_on else 0}
+        self.leaf_cap = 320 if self.long else 14
+        self.unroll_cap = 400 if self.long else 60
         self.model = Model(BOOT_CONFIGS[self.boot_id] or BOOT_CONFIGS["shipped"])
         self.steps = []
         self.sess_handles = {s: [] for s in range(self.n_sessions)}
@@ -142,7 +150,7 @@ class Gen:
 
     # ------------------------------------------------------------ helpers
     def swarm(self):
-        return {"sessions": self.n_sessions, "qubits": self.n_qubits, "kinds": self.kinds, "durations": self.durs,
+        return {"long": self.long, "sessions": self.n_sessions, "qubits": self.n_qubits, "kinds": self.kinds, "durations": self.durs,
                 "depth_cap": self.depth_cap, "budget": self.budget, "fault_free": self.fault_free,
                 "p_rel": self.p_rel}
 
@@ -197,7 +205,7 @@ class Gen:
         if not hs:
             return self.mk_new(s)
         name = rng.choice(hs)
-        if self.model.leaf_count(name) >= 14 or self.unrolled(name) >= 60:
+        if self.model.leaf_count(name) >= self.leaf_cap or self.unrolled(name) >= self.unroll_cap:
             return False
         if self.P.get("p_meas") and rng.random() < self.P["p_meas"]:
             kind = "DispersiveMeasure"
@@ -464,7 +472,7 @@ class Gen:
             st["compact"] = rng.random() < 0.8
         if what == "FULL" and rng.random() < 0.3:
             st["alt"] = True
-        if self.n_checks < (4 if self.lib_handles else 12):
+        if self.n_checks < (2 if self.long else 4 if self.lib_handles else 12):
             st["check"] = True
             self.n_checks += 1
         self.emit(st)
@@ -561,12 +569,13 @@ class Gen:
         for s in range(self.n_sessions):
             self.mk_new(s)
         guard = 0
-        while len(self.steps) < self.budget and guard < 400:
+        long_mut = {"ADD_OP": 94, "ADD_SUB": 2, "NEW": 1, "APPLY": 1, "COPY": 1, "SET_DUR": 1}
+        while len(self.steps) < self.budget and guard < (1200 if self.long else 400):
             guard += 1
-            s = rng.randrange(self.n_sessions)
+            s = rng.randrange(self.n_sessions) if not self.long else 0
             cls = _wchoice(rng, self.class_w)
             if cls == "mut":
-                what = _wchoice(rng, self.P["mut"])
+                what = _wchoice(rng, long_mut if self.long else self.P["mut"])
                 makers[what](s)
             elif cls == "obs":
                 self.mk_obs(s)
